@@ -146,11 +146,18 @@ theorem nodupB_iff (l : List String) : nodupB l = true ↔ l.Nodup := by
   | nil => simp [nodupB]
   | cons x xs ih => simp [nodupB, ih, List.nodup_cons]
 
+theorem preserveClause_none_iff (a b c : RPod) :
+    preserveClause a b c = none ↔ preservesB a b = true ∧ preservesB a c = true := by
+  unfold preserveClause preservesB
+  repeat' split
+  all_goals simp_all
+
 /-- The monitors part is `okInjected` exactly when the observation is complete and the statements hold. -/
 theorem judgeMonitors_ok_iff (o : Obs) :
     judgeMonitors o = .okInjected ↔
       ∃ a b c, o.orig = some a ∧ o.once = some b ∧ o.twice = some c ∧
         Preserves a b ∧ Preserves a c ∧ b.ctrNames.Nodup ∧ c.ctrNames.Nodup ∧
+        b.ephemerals = a.ephemerals ∧ c.ephemerals = a.ephemerals ∧
         (a.fresh = true → StatusTruthful a b) ∧ Idempotent b c := by
   unfold judgeMonitors
   constructor
@@ -158,31 +165,40 @@ theorem judgeMonitors_ok_iff (o : Obs) :
     split at h
     · rename_i a b c ha hb hc
       refine ⟨a, b, c, ha, hb, hc, ?_⟩
-      repeat' split at h
-      all_goals try (simp at h; done)
-      rename_i k1 k2 k3 k4 k5 k6 k7 k8 kd k9 k10
-      simp only [Bool.not_eq_eq_eq_not, Bool.not_true, Bool.and_eq_true, not_and, Bool.not_eq_false] at k1 k2 k3 k4 k5 k6 k7 k8 k9 k10
-      have kd' : nodupB b.ctrNames = true ∧ nodupB c.ctrNames = true := by
-        cases h1 : nodupB b.ctrNames <;> cases h2 : nodupB c.ctrNames <;> simp_all
-      refine ⟨(preservesB_iff a b).mp ?_, (preservesB_iff a c).mp ?_, (nodupB_iff _).mp kd'.1, (nodupB_iff _).mp kd'.2, ?_,
-        (idempotentB_iff b c).mp ?_⟩
-      · simp_all [preservesB]
-      · simp_all [preservesB]
-      · intro hf; exact (statusTruthfulB_iff a b).mp (by simpa using k9 hf)
-      · simp_all
+      split at h
+      · simp at h
+      · rename_i hp
+        have hp' := (preserveClause_none_iff a b c).mp hp
+        repeat' split at h
+        all_goals try (simp at h; done)
+        rename_i kd ke ks ki
+        have kd' : nodupB b.ctrNames = true ∧ nodupB c.ctrNames = true := by
+          cases h1 : nodupB b.ctrNames <;> cases h2 : nodupB c.ctrNames <;> simp_all
+        have ke' : keepsEphemeralB a b = true ∧ keepsEphemeralB a c = true := by
+          cases h1 : keepsEphemeralB a b <;> cases h2 : keepsEphemeralB a c <;> simp_all
+        refine ⟨(preservesB_iff a b).mp hp'.1, (preservesB_iff a c).mp hp'.2, (nodupB_iff _).mp kd'.1, (nodupB_iff _).mp kd'.2,
+          of_decide_eq_true ke'.1, of_decide_eq_true ke'.2, ?_, (idempotentB_iff b c).mp ?_⟩
+        · intro hf
+          apply (statusTruthfulB_iff a b).mp
+          cases hst : statusTruthfulB a b
+          · simp [hf, hst] at ks
+          · rfl
+        · cases hi : idempotentB b c
+          · simp [hi] at ki
+          · rfl
     · simp at h
-  · rintro ⟨a, b, c, ha, hb, hc, h1, h2, hd1, hd2, h3, h4⟩
+  · rintro ⟨a, b, c, ha, hb, hc, h1, h2, hd1, hd2, he1, he2, h3, h4⟩
+    have hp := (preserveClause_none_iff a b c).mpr ⟨(preservesB_iff a b).mpr h1, (preservesB_iff a c).mpr h2⟩
+    have pe1 : keepsEphemeralB a b = true := decide_eq_true he1
+    have pe2 : keepsEphemeralB a c = true := decide_eq_true he2
     have pd1 := (nodupB_iff _).mpr hd1
     have pd2 := (nodupB_iff _).mpr hd2
-    have p1 := (preservesB_iff a b).mpr h1
-    have p2 := (preservesB_iff a c).mpr h2
     have p4 := (idempotentB_iff b c).mpr h4
-    simp only [preservesB, Bool.and_eq_true] at p1 p2
     have p3 : (a.fresh && !statusTruthfulB a b) = false := by
       cases hf : a.fresh
       · simp
       · simp [(statusTruthfulB_iff a b).mpr (h3 hf)]
-    simp [ha, hb, hc, p1.1.1.1, p1.1.1.2, p1.1.2, p1.2, p2.1.1.1, p2.1.1.2, p2.1.2, p2.2, p3, p4, pd1, pd2]
+    simp [ha, hb, hc, hp, p3, p4, pd1, pd2, pe1, pe2]
 
 def Verdict.injOrFail : Verdict → Prop
   | .okInjected => True
@@ -192,8 +208,10 @@ def Verdict.injOrFail : Verdict → Prop
 theorem judgeMonitors_injOrFail (o : Obs) : (judgeMonitors o).injOrFail := by
   unfold judgeMonitors
   split
-  · repeat' split
-    all_goals exact True.intro
+  · split
+    · exact True.intro
+    · repeat' split
+      all_goals exact True.intro
   · exact True.intro
 
 /-- The monitors part only ever says `okInjected` or `fail`. -/
@@ -212,6 +230,7 @@ theorem judge_injected_sound (o : Obs) (h : judge o = .okInjected) :
     o.status = "injected" ∧ o.expect = some true ∧ o.refusal ≠ "must" ∧
     ∃ a b c, o.orig = some a ∧ o.once = some b ∧ o.twice = some c ∧
       Preserves a b ∧ Preserves a c ∧ b.ctrNames.Nodup ∧ c.ctrNames.Nodup ∧
+      b.ephemerals = a.ephemerals ∧ c.ephemerals = a.ephemerals ∧
       (a.fresh = true → StatusTruthful a b) ∧ Idempotent b c := by
   unfold judge at h
   split at h
@@ -239,9 +258,10 @@ theorem judge_injected_complete (o : Obs) (a b c : RPod) (hs : o.status = "injec
     (he : o.expect = some true) (hr : o.refusal ≠ "must")
     (ha : o.orig = some a) (hb : o.once = some b) (hc : o.twice = some c)
     (h1 : Preserves a b) (h2 : Preserves a c) (hd1 : b.ctrNames.Nodup) (hd2 : c.ctrNames.Nodup)
+    (he1 : b.ephemerals = a.ephemerals) (he2 : c.ephemerals = a.ephemerals)
     (h3 : a.fresh = true → StatusTruthful a b) (h4 : Idempotent b c) :
     judge o = .okInjected := by
-  have hm := (judgeMonitors_ok_iff o).mpr ⟨a, b, c, ha, hb, hc, h1, h2, hd1, hd2, h3, h4⟩
+  have hm := (judgeMonitors_ok_iff o).mpr ⟨a, b, c, ha, hb, hc, h1, h2, hd1, hd2, he1, he2, h3, h4⟩
   unfold judge
   simp [hs, he, hr, hm]
 
@@ -315,6 +335,13 @@ theorem judge_decision_checked (o : Obs) :
     unfold judge
     rcases hs with hs | hs | hs <;> simp [hs, he]
 
+/-- `OK injected` implies that the ephemeral containers of the pod are in both results, unchanged. -/
+theorem judge_ok_ephemeral_preserved (o : Obs) (h : judge o = .okInjected) :
+    ∃ a b c, o.orig = some a ∧ o.once = some b ∧ o.twice = some c ∧
+      b.ephemerals = a.ephemerals ∧ c.ephemerals = a.ephemerals := by
+  obtain ⟨_, _, _, a, b, c, ha, hb, hc, _, _, _, _, he1, he2, _, _⟩ := judge_injected_sound o h
+  exact ⟨a, b, c, ha, hb, hc, he1, he2⟩
+
 /-- A case of the check that did not load is never a pass. -/
 theorem judge_unloadable_fails (o : Obs) (h : o.status = "unloadable") : judge o = .fail "unloadable" := by
   unfold judge; simp [h]
@@ -376,4 +403,10 @@ example : judge { status := "injected", expect := none, orig := some exOrig, onc
 example : judge { status := "injected", expect := some true, orig := some exOrig,
                   once := some { exOnce with inits := [exInit, exProxy] }, twice := some { exOnce with inits := [exInit, exProxy] } }
     = .fail "duplicate-container-name" := by decide +kernel
+end IstioModel.C19
+
+namespace IstioModel.C19
+/-- a lost ephemeral container is rejected -/
+example : judge { status := "injected", expect := some true, orig := some { exOrig with ephemerals := [⟨"debugger", "e1"⟩] },
+                  once := some exOnce, twice := some exOnce } = .fail "preserve-ephemeral" := by decide +kernel
 end IstioModel.C19
